@@ -109,6 +109,13 @@ func (x *hW) prefix(k int) {
 		x.opRemoveEntity(0) // table retired
 		x.opNewEntity(0)    // new parent (recycled id)
 		x.opBuilderNew(A|R1, uR1, true, x.h[4], true)
+	case 15: // a removed handle whose id is re-issued to an entity that carries the same components
+		x.opNewEntityWith(A)
+		x.opNewEntityWith(A | B)
+		x.opRemoveEntity(0)
+		x.opNewEntityWith(A | B)
+		x.opRemoveEntity(1)
+		x.opNewEntityWith(A)
 	case 7: // second relation type and relation swap material
 		x.opNewEntity(0)
 		x.opBuilderNew(R2, uR2, true, x.h[0], false)
